@@ -484,12 +484,43 @@ pub fn bytes_strategy(_tier: Tier) -> BoxedStrategy<Case> {
     decoded_strategy(fuzz_domain)
 }
 
+const SEL: [u16; 3] = [0, 21846, 43691];
+/// history length of the bounded-exhaustive sub-check
+fn seq_len(tier: Tier) -> usize {
+    if tier == Tier::Quick {
+        4
+    } else {
+        5
+    }
+}
+/// alphabet of the bounded-exhaustive sub-check: three keys, every node / edge insertion and removal
+fn alphabet() -> Vec<Op> {
+    let mut a = Vec::new();
+    for x in SEL {
+        a.push(Op::AddNode(x));
+        a.push(Op::RemoveNode(x));
+        for y in SEL {
+            a.push(Op::AddEdge(x, y));
+            a.push(Op::RemoveEdge(x, y));
+        }
+    }
+    a
+}
+fn enum_count(tier: Tier) -> u64 {
+    2 * (alphabet().len() as u64).pow(seq_len(tier) as u32)
+}
+fn enum_make(tier: Tier, i: u64) -> Case {
+    let a = alphabet();
+    let ops = crate::util::digits(i / 2, a.len() as u64, seq_len(tier)).into_iter().map(|d| a[d].clone()).collect();
+    Case { directed: i % 2 == 0, hasher: ((i / 2) % 4) as u8, key: ((i / 8) % 2) as u8, ops }
+}
+
 pub fn property() -> Property {
     Property {
         id: "C03",
-        rule: "operation histories (<=40 ops quick / <=150 thorough) over GraphMap with keys from a pool of 8 values (i32 incl. MIN, and (i8,bool)), Directed/Undirected, hashers RandomState / Fx / aHash / an all-colliding constant hasher: add_node, add_edge (new, existing, self-loop, reciprocal), remove_edge and remove_node (arbitrary and live targets, undirected edges named by either orientation), clear, extend, from_edges, weight writes (edge_weight_mut, IndexMut, all_edges_mut), into_graph/from_graph, clone; after every step every query for every pool key and pair, the whole-graph iterators and the to_index/from_index numberings are compared with a BTreeSet/BTreeMap model; non-trivial = a removal at a node with >= 3 incident edges (adjacency swap_remove) followed by a later add_edge; distinct by fingerprint of the op sequence; the *-from-bytes sub-checks feed the same interpreter with histories decoded from generated byte strings by the libFuzzer codec (all operation kinds equally likely, up to the thorough-tier length)",
+        rule: "operation histories (<=40 ops quick / <=150 thorough) over GraphMap with keys from a pool of 8 values (i32 incl. MIN, and (i8,bool)), Directed/Undirected, hashers RandomState / Fx / aHash / an all-colliding constant hasher: add_node, add_edge (new, existing, self-loop, reciprocal), remove_edge and remove_node (arbitrary and live targets, undirected edges named by either orientation), clear, extend, from_edges, weight writes (edge_weight_mut, IndexMut, all_edges_mut), into_graph/from_graph, clone; after every step every query for every pool key and pair, the whole-graph iterators and the to_index/from_index numberings are compared with a BTreeSet/BTreeMap model; non-trivial = a removal at a node with >= 3 incident edges (adjacency swap_remove) followed by a later add_edge; distinct by fingerprint of the op sequence; the *-from-bytes sub-checks feed the same interpreter with histories decoded from generated byte strings by the libFuzzer codec (all operation kinds equally likely, up to the thorough-tier length); bounded-exhaustive sub-check: every history of 4 (thorough: 5) operations over a 24-operation alphabet (add / remove node, add / remove edge for every ordered pair of three keys), directed and undirected",
         assumptions: &["EdgeIndexable is exercised only with ids yielded by edge_references (canonical orientation)"],
         both_profiles: false,
-        subs: vec![sub_fuzz("graphmap/history", 500_000, 5_000_000, strategy, run, fuzz_domain), sub("graphmap/history-from-bytes", 300_000, 5_000_000, bytes_strategy, run)],
+        subs: vec![sub_fuzz("graphmap/history", 500_000, 5_000_000, strategy, run, fuzz_domain), sub_enum("graphmap/all-short-histories", enum_count, enum_make, run), sub("graphmap/history-from-bytes", 300_000, 5_000_000, bytes_strategy, run)],
     }
 }
